@@ -481,6 +481,30 @@ def c_poly(ctx, case):
                              f"divmod({da}, {db}) = ({getattr(Q, 'data', Q)}, {getattr(R, 'data', R)}): "
                              f"q*b + r at x={xv} is {short(rhs)}, a is {lhs}")
                     break
+            # the operator spellings of the same operation: //, % (and / when it divides)
+            for nm, f, ref_ in (("//", lambda: A // B, Q), ("%", lambda: A % B, R)):
+                ctx.count("poly_divmod_spellings")
+                try:
+                    alt = f()
+                except Exception as ex:  # noqa: BLE001
+                    ctx.fail("C19.poly", case, f"raised:{nm}:{type(ex).__name__}",
+                             f"({da}) {nm} ({db}) raised {type(ex).__name__}: {ex}; divmod works")
+                    continue
+                if getattr(alt, "data", alt) != getattr(ref_, "data", ref_):
+                    ctx.fail("C19.poly", case, f"divmod-spelling:{nm}",
+                             f"({da}) {nm} ({db}) = {getattr(alt, 'data', alt)} but divmod gives "
+                             f"{getattr(ref_, 'data', ref_)}")
+            if isinstance(R, Polynomial) and R.degree == -1:
+                try:
+                    alt = A / B
+                    if getattr(alt, "data", alt) != getattr(Q, "data", Q):
+                        ctx.fail("C19.poly", case, "divmod-spelling:/",
+                                 f"({da}) / ({db}) = {getattr(alt, 'data', alt)}, divmod quotient "
+                                 f"{getattr(Q, 'data', Q)}")
+                except Exception as ex:  # noqa: BLE001
+                    ctx.fail("C19.poly", case, f"raised:/:{type(ex).__name__}",
+                             f"({da}) / ({db}) raised {type(ex).__name__}: {ex} although the "
+                             f"remainder is zero")
             _, _, exact = pdivmod(to_dense(A), to_dense(B))
             if exact and isinstance(R, Polynomial) and R.degree >= B.degree:
                 ctx.fail("C19.poly", case, "divmod-degree",
@@ -551,6 +575,57 @@ def _mapped_variants(ctx, case, da, pts):
                                  f"only) is {getattr(M, 'data', M)}; {tag} at x={xv} evaluates to "
                                  f"{short(got)}, expected {want}")
                         return
+
+
+@check("C19.bigpoly")
+def c_bigpoly(ctx, case):
+    """Products / powers of polynomials with THOUSANDS of term pairs, most of which cancel:
+    coefficient-for-coefficient equal to an independent dense convolution, zero coefficients
+    dropped, exponents strictly increasing."""
+    kind, n, seed = case
+    rng = ctx.sub_rng("bigpoly", seed)
+    if kind == "geometric":         # (1 + x + ... + x**n) * (1 - x) == 1 - x**(n+1)
+        da = [1] * (n + 1)
+        db = [1, -1]
+    elif kind == "binomial":        # (x + 1)**n * (x - 1)**n == (x**2 - 1)**n
+        da, db = [1], [1]
+        for _ in range(n):
+            da = _conv(da, [1, 1])
+            db = _conv(db, [-1, 1])
+    else:                           # dense random, mixed signs, many cancellations
+        da = [rng.choice([1, -1, 2, 0, -2, 3]) for _ in range(n)] + [1]
+        db = [rng.choice([1, -1, 1, 0, -1]) for _ in range(n)] + [rng.choice([1, -1])]
+    want = _conv(da, db)
+    A = Polynomial(X, tuple((e, c) for e, c in enumerate(da) if c != 0))
+    B = Polynomial(X, tuple((e, c) for e, c in enumerate(db) if c != 0))
+    ctx.case(None)
+    ctx.count("big_polynomial_products")
+    ctx.count("big_polynomial_term_pairs", len(A.data) * len(B.data))
+    for nm, f in (("A*B", lambda: A * B), ("B*A", lambda: B * A)):
+        try:
+            R = f()
+        except Exception as ex:  # noqa: BLE001
+            ctx.fail("C19.bigpoly", case, f"raised:{type(ex).__name__}",
+                     f"{kind} n={n}: {nm} raised {type(ex).__name__}: {ex}")
+            continue
+        got = dict(getattr(R, "data", ((0, R),)))
+        exps = [e for e, _ in getattr(R, "data", ())]
+        wantd = {e: c for e, c in enumerate(want) if c != 0}
+        if got != wantd or exps != sorted(set(exps)):
+            bad = sorted(set(got.items()) ^ set(wantd.items()))[:4]
+            ctx.fail("C19.bigpoly", case, f"product:{kind}",
+                     f"{kind} n={n} ({len(A.data)} x {len(B.data)} term pairs): {nm} differs from "
+                     f"the dense convolution in {len(set(got.items()) ^ set(wantd.items()))} "
+                     f"(exponent, coefficient) entries, e.g. {bad}")
+
+
+def _conv(a, b):
+    out = [0] * (len(a) + len(b) - 1)
+    for i, x in enumerate(a):
+        if x:
+            for j, y in enumerate(b):
+                out[i + j] += x * y
+    return out
 
 
 @check("C19.quotient")
@@ -659,6 +734,12 @@ def workload(ctx):
         if i < 2:
             ctx.sample("polynomial-pair", f"{da} and {db} as ((exponent, coefficient), ...)")
         ctx.run("C19.poly", (da, db, rng.randint(0, 4)))
+    for kind, ns in (("geometric", [10, 100, 2100, 4097, 5000]), ("binomial", [8, 33, 64, 70]),
+                     ("random", [20, 63, 64, 65, 90, 130])):
+        for n in ns:
+            if ctx.mine("bigpoly"):
+                ctx.case(("bigpoly", kind, n), True, n=0)
+                ctx.run("C19.bigpoly", (kind, n, rng.randrange(10**6)))
     # quotient node
     for i in range(ctx.per_shard(ctx.pick(3000, 60000))):
         hi = rng.choice([10, 1000, 2 ** 53 - 1, 2 ** 62, 2 ** 90])
@@ -674,5 +755,7 @@ def workload(ctx):
     ctx.floor("fft_calls", 120)
     ctx.floor("symfft_calls", 20)
     ctx.floor("poly_ops", 5000)
+    ctx.floor("poly_divmod_spellings", 1000)
+    ctx.floor("big_polynomial_term_pairs", 50000)
     ctx.floor("poly_mapped", 1000)
     ctx.floor("quotient_nodes", 2000)
